@@ -38,7 +38,12 @@ func c10Monitor(args []string) int {
 			continue
 		}
 		games++
-		startClock := p.HalfMoveClock()
+		startClock := 0 // from the text of the FEN, not from the engine: "continuing from the FEN value"
+		if ff := strings.Fields(root); len(ff) > 4 {
+			if v, err := strconv.Atoi(ff[4]); err == nil {
+				startClock = v
+			}
+		}
 		sinceIrreversible := 0
 		irreversibleSeen := false
 		var cores []string // cores of all earlier positions of the game (incl. root)
